@@ -126,10 +126,16 @@ Definition s_pseudo (c : table) (mkout : str -> oitem) (fs : frames) (p : option
   : res (frames * list oitem) :=
   match p with
   | None => Ok (fs, [])
-  | Some (Pseudo props content) =>
+  | Some (Pseudo props mk content) =>
+      (* a pseudo-element is a child-like node of its element (::before first,
+         ::after last): its counter properties act in the frame of the
+         element's children; a list-item pseudo-element increments list-item
+         implicitly like any list item (s_update) and its ::marker is
+         generated from the counters as they are AFTER its own updates *)
       let fs' := s_update fs props in
+      let* m := (if cp_list_item props then s_marker c fs' mk else Ok []) in
       let* s := s_content c fs' content in
-      Ok (fs', [mkout s])
+      Ok (fs', m ++ [mkout s])
   end.
 
 (* an element: its own counter properties act at the level of its siblings;
